@@ -9,6 +9,7 @@ import (
 	"math/big"
 	"os"
 	"strings"
+	"time"
 
 	"golang.org/x/tools/go/ssa"
 )
@@ -102,6 +103,8 @@ type Exec struct {
 	hashMemo       map[string]string
 	encMemo        map[string]Value
 	hashApps       []hashApp
+	deadline       time.Time
+	timedOut       bool
 }
 
 func (e *Exec) callerIsInit() bool {
@@ -129,6 +132,11 @@ func (e *Exec) Explore(fn *ssa.Function) {
 	for len(e.pending) > 0 {
 		if e.maxPaths > 0 && e.paths >= e.maxPaths {
 			e.truncated = true
+			return
+		}
+		if !e.deadline.IsZero() && time.Now().After(e.deadline) {
+			e.truncated = true
+			e.timedOut = true
 			return
 		}
 		p := e.pending[len(e.pending)-1]
